@@ -11,8 +11,15 @@ use crate::request::RequestHeader;
 use crate::fang::FangProcCaller;
 use crate::fang::handler::Handler;
 use crate::Method;
-//@include spec/utf8.rs
-//@include spec/from_utf8_stub.rs
+/// ASSUMED CONTRACT of core::str::from_utf8 restricted to the inputs of these harnesses: every request header value built here is ASCII by
+/// construction (kani::assume on the symbolic bytes), and ASCII is valid UTF-8.  (The general reference validator spec/utf8.rs forks on every
+/// byte and made these queries take 15 min; measured.)
+fn stub_from_utf8(v: &[u8]) -> Result<&str, std::str::Utf8Error> {
+    let mut i = 0; let mut ascii = true;
+    while i < v.len() { if v[i] >= 0x80 { ascii = false } i += 1; }
+    kani::assume(ascii);
+    Ok(unsafe { std::str::from_utf8_unchecked(v) })
+}
 
 fn stub_ts() -> u64 { 0 }
 fn eqb(a: &[u8], b: &[u8]) -> bool { if a.len() != b.len() { return false } let mut i = 0; while i < a.len() { if a[i] != b[i] { return false } i += 1; } true }
@@ -108,6 +115,30 @@ fn options_body(k: usize) {
     kani::cover!(!present || !registered);
 }
 //@chunks 24 c14_default_options_contract options_body #[kani::proof] #[kani::unwind(30)] #[kani::stub(crate::util::unix_timestamp, stub_ts)] #[kani::stub(std::str::from_utf8, stub_from_utf8)]
+
+/// concrete probes of the same contract: tokens that are NOT a registered method but share text with the advertised list (substrings, the
+/// separator, case variants, padded names) must all be refused with 400 -- cheap even when the code under contract becomes expensive for CBMC
+#[kani::proof]
+#[kani::unwind(30)]
+#[kani::stub(crate::util::unix_timestamp, stub_ts)]
+#[kani::stub(std::str::from_utf8, stub_from_utf8)]
+fn c14_default_options_concrete_tokens() {
+    const BAD: [&[u8]; 12] = [b"PAT", b"PATC", b"EAD", b"GE", b"T", b",", b", ", b"GET,", b"GET, PATCH", b"get", b" GET", b"OPTION"];
+    const GOOD: [&[u8]; 4] = [b"GET", b"PATCH", b"HEAD", b"OPTIONS"];
+    let handler = Handler::default_options_with(vec!["GET", "PATCH"]);
+    let mut i = 0;
+    while i < 16 {
+        let tok: &'static [u8] = if i < 12 { BAD[i] } else { GOOD[i - 12] };
+        let mut req = Request::init(std::net::IpAddr::V4(std::net::Ipv4Addr::new(127, 0, 0, 1)));
+        req.method = Method::OPTIONS;
+        req.headers.append(RequestHeader::AccessControlRequestMethod, CowSlice::Ref(Slice::from_bytes(tok)));
+        let res = block_on(handler.proc.call_bite(&mut req));
+        if i < 12 { assert!(res.status == Status::BadRequest, "default OPTIONS: a token that is not exactly a registered method is refused with 400"); }
+        else { assert!(res.status == Status::NotImplemented, "default OPTIONS: a registered method is the valid-preflight marker"); }
+        std::mem::forget(res); std::mem::forget(req);
+        i += 1;
+    }
+}
 
 /// CORS::AllowCredentials on a wildcard origin is refused by the builder (so `credentials => non-wildcard` holds for every configuration)
 #[kani::proof]
